@@ -63,6 +63,16 @@ impl rand::RngCore for PlainRng {
     }
 }
 
+
+/// record a measurement; heap bytes of the harness's own bookkeeping (labels, vectors) made
+/// after `base` are tracked in `noise` and subtracted
+fn rec(c: &mut Case, noise: &mut i64, base: i64, label: String) {
+    let v = live() - base - *noise;
+    let before = live();
+    c.points.push((label, v));
+    *noise += live() - before;
+}
+
 struct Case {
     name: String,
     documented: f64,
@@ -90,23 +100,25 @@ fn fam_0(thorough: bool) -> Vec<Case> {
     for &slots in &[16usize, 256, 4096] {
         for l in (2..=64).filter(|l| thorough || l % 3 == 2 || *l >= 62 || *l <= 9) {
             let base = live();
+            let mut noise = 0i64;
             let mut f = CuckooFilter::<u64, PlainRng>::with_params(PlainRng(0x2545F4914F6CDD1D), 4, slots / 4, l);
             let mut c = Case { name: format!("CuckooFilter slots={} l={}", slots, l), documented: (slots * l) as f64 / 8.0, points: vec![], flat: vec![] };
-            c.points.push(("constructed".into(), live() - base));
+            noise += c.name.capacity() as i64;
+            rec(&mut c, &mut noise, base, "constructed".into());
             let mut n = 0usize;
             for &len in ls.iter().filter(|&&x| x <= 10_000) {
                 while n < len {
                     let _ = f.insert(&mix(n as u64)); // fails once full: failed-insert path
                     n += 1;
                 }
-                c.points.push((format!("after {} inserts", len), live() - base));
+                rec(&mut c, &mut noise, base, format!("after {} inserts", len));
             }
             let other = f.clone();
             let _ = f.union(&other); // failing union on a full filter
             drop(other);
-            c.points.push(("after failed union".into(), live() - base));
+            rec(&mut c, &mut noise, base, "after failed union".into());
             f.clear();
-            c.points.push(("after clear".into(), live() - base));
+            rec(&mut c, &mut noise, base, "after clear".into());
             c.flat.push(("after 100 inserts".into(), "after 10000 inserts".into()));
             drop(f);
             cases.push(c);
@@ -124,17 +136,19 @@ fn fam_1(thorough: bool) -> Vec<Case> {
     for &q in &[4usize, 8, 12] {
         for r in (1..=(64 - q).min(60)).filter(|r| thorough || r % 4 == 1 || *r >= 50 || *r <= 6) {
             let base = live();
+            let mut noise = 0i64;
             let mut f = QuotientFilter::<Key, _>::with_params_and_hash(q, r, TableHasher::identity());
             let slots = 1usize << q;
             let mut c = Case { name: format!("QuotientFilter q={} r={}", q, r), documented: (slots * (r + 3)) as f64 / 8.0, points: vec![], flat: vec![] };
-            c.points.push(("constructed".into(), live() - base));
+            noise += c.name.capacity() as i64;
+            rec(&mut c, &mut noise, base, "constructed".into());
             let mut n = 0usize;
             for &len in ls.iter().filter(|&&x| x <= 10_000) {
                 while n < len {
                     let _ = f.insert(&Key(mix(n as u64)));
                     n += 1;
                 }
-                c.points.push((format!("after {} inserts", len), live() - base));
+                rec(&mut c, &mut noise, base, format!("after {} inserts", len));
             }
             let other = f.clone();
             let mut g = QuotientFilter::<Key, _>::with_params_and_hash(q, r, TableHasher::identity());
@@ -146,12 +160,12 @@ fn fam_1(thorough: bool) -> Vec<Case> {
             let delta_union = live() - before;
             drop(other);
             drop(g);
-            c.points.push(("after unions".into(), live() - base));
+            rec(&mut c, &mut noise, base, "after unions".into());
             if delta_union.abs() > 64 {
                 c.points.push(("leaked by union".into(), delta_union + c.documented as i64 * 4 + 2048));
             }
             f.clear();
-            c.points.push(("after clear".into(), live() - base));
+            rec(&mut c, &mut noise, base, "after clear".into());
             c.flat.push(("after 100 inserts".into(), "after 10000 inserts".into()));
             drop(f);
             cases.push(c);
@@ -169,23 +183,25 @@ fn fam_2(thorough: bool) -> Vec<Case> {
     for &m in &[64usize, 1 << 10, 1 << 16, 1 << 20] {
         for &k in &[1usize, 7] {
             let base = live();
+            let mut noise = 0i64;
             let mut f = BloomFilter::<u64>::with_params(m, k);
             let mut c = Case { name: format!("BloomFilter m={} k={}", m, k), documented: m as f64 / 8.0, points: vec![], flat: vec![] };
-            c.points.push(("constructed".into(), live() - base));
+            noise += c.name.capacity() as i64;
+            rec(&mut c, &mut noise, base, "constructed".into());
             let mut n = 0usize;
             for &len in &ls {
                 while n < len {
                     f.insert(&mix(n as u64)).unwrap();
                     n += 1;
                 }
-                c.points.push((format!("after {} inserts", len), live() - base));
+                rec(&mut c, &mut noise, base, format!("after {} inserts", len));
             }
             let o = f.clone();
             f.union(&o).unwrap();
             drop(o);
-            c.points.push(("after union".into(), live() - base));
+            rec(&mut c, &mut noise, base, "after union".into());
             f.clear();
-            c.points.push(("after clear".into(), live() - base));
+            rec(&mut c, &mut noise, base, "after clear".into());
             c.flat.push(("after 10 inserts".into(), format!("after {} inserts", last)));
             cases.push(c);
         }
@@ -203,9 +219,11 @@ fn fam_3(thorough: bool) -> Vec<Case> {
         ($t:ty, $name:expr) => {
             for &(w, d) in &[(16usize, 2usize), (272, 3), (2719, 5)] {
                 let base = live();
+            let mut noise = 0i64;
                 let mut s = CountMinSketch::<u64, $t>::with_params(w, d);
                 let mut c = Case { name: format!("CountMinSketch w={} d={} {}", w, d, $name), documented: (w * d * std::mem::size_of::<$t>()) as f64, points: vec![], flat: vec![] };
-                c.points.push(("constructed".into(), live() - base));
+            noise += c.name.capacity() as i64;
+                rec(&mut c, &mut noise, base, "constructed".into());
                 let mut n = 0usize;
                 let cap = if std::mem::size_of::<$t>() == 1 { 100 } else { last };
                 for &len in ls.iter().filter(|&&x| x <= cap) {
@@ -213,16 +231,16 @@ fn fam_3(thorough: bool) -> Vec<Case> {
                         s.add(&mix(n as u64));
                         n += 1;
                     }
-                    c.points.push((format!("after {} adds", len), live() - base));
+                    rec(&mut c, &mut noise, base, format!("after {} adds", len));
                 }
                 if std::mem::size_of::<$t>() > 1 {
                     let o = s.clone();
                     s.merge(&o);
                     drop(o);
-                    c.points.push(("after merge".into(), live() - base));
+                    rec(&mut c, &mut noise, base, "after merge".into());
                 }
                 s.clear();
-                c.points.push(("after clear".into(), live() - base));
+                rec(&mut c, &mut noise, base, "after clear".into());
                 c.flat.push(("after 10 adds".into(), format!("after {} adds", cap.min(last))));
                 cases.push(c);
             }
@@ -243,9 +261,11 @@ fn fam_4(thorough: bool) -> Vec<Case> {
     // ---- HyperLogLog -----------------------------------------------------------------------
     for b in [4usize, 8, 12, 16, 18] {
         let base = live();
+            let mut noise = 0i64;
         let mut h = HyperLogLog::<u64>::new(b);
         let mut c = Case { name: format!("HyperLogLog b={}", b), documented: (1usize << b) as f64, points: vec![], flat: vec![] };
-        c.points.push(("constructed".into(), live() - base));
+            noise += c.name.capacity() as i64;
+        rec(&mut c, &mut noise, base, "constructed".into());
         let mut n = 0usize;
         for &len in &ls {
             while n < len {
@@ -253,14 +273,14 @@ fn fam_4(thorough: bool) -> Vec<Case> {
                 n += 1;
             }
             let _ = h.count();
-            c.points.push((format!("after {} adds", len), live() - base));
+            rec(&mut c, &mut noise, base, format!("after {} adds", len));
         }
         let o = h.clone();
         h.merge(&o);
         drop(o);
-        c.points.push(("after merge".into(), live() - base));
+        rec(&mut c, &mut noise, base, "after merge".into());
         h.clear();
-        c.points.push(("after clear".into(), live() - base));
+        rec(&mut c, &mut noise, base, "after clear".into());
         c.flat.push(("after 10 adds".into(), format!("after {} adds", last)));
         cases.push(c);
     }
@@ -278,9 +298,11 @@ fn fam_5(thorough: bool) -> Vec<Case> {
             for &delta in &[10.0f64, 100.0, 1000.0] {
                 for &backlog in &[0usize, 100, 10_000] {
                     let base = live();
+            let mut noise = 0i64;
                     let mut d = TDigest::new($k::new(delta), backlog);
                     let mut c = Case { name: format!("TDigest {}(delta={}) backlog={}", $name, delta, backlog), documented: 16.0 * (delta + 3.0 + backlog as f64 + 1.0), points: vec![], flat: vec![] };
-                    c.points.push(("constructed".into(), live() - base));
+            noise += c.name.capacity() as i64;
+                    rec(&mut c, &mut noise, base, "constructed".into());
                     let mut n = 0usize;
                     let cap = if backlog == 0 && delta >= 1000.0 { 100_000 } else { last };
                     for &len in ls.iter().filter(|&&x| x <= cap) {
@@ -288,12 +310,12 @@ fn fam_5(thorough: bool) -> Vec<Case> {
                             d.insert((mix(n as u64) % 1_000_003) as f64 * 0.001);
                             n += 1;
                         }
-                        c.points.push((format!("after {} inserts", len), live() - base));
+                        rec(&mut c, &mut noise, base, format!("after {} inserts", len));
                         let _ = d.quantile(0.5);
-                        c.points.push((format!("after {} inserts + read", len), live() - base));
+                        rec(&mut c, &mut noise, base, format!("after {} inserts + read", len));
                     }
                     d.clear();
-                    c.points.push(("after clear".into(), live() - base));
+                    rec(&mut c, &mut noise, base, "after clear".into());
                     cases.push(c);
                 }
             }
@@ -314,18 +336,20 @@ fn fam_6(thorough: bool) -> Vec<Case> {
     // ---- ReservoirSampling -----------------------------------------------------------------
     for &k in &[1usize, 10, 1000] {
         let base = live();
+            let mut noise = 0i64;
         let mut r = ReservoirSampling::<u64, PlainRng>::new(k, PlainRng(0x9E3779B97F4A7C15));
         let mut c = Case { name: format!("ReservoirSampling k={}", k), documented: (k * 8) as f64, points: vec![], flat: vec![] };
+            noise += c.name.capacity() as i64;
         let mut n = 0usize;
         for &len in &ls {
             while n < len {
                 r.add(n as u64);
                 n += 1;
             }
-            c.points.push((format!("after {} adds", len), live() - base));
+            rec(&mut c, &mut noise, base, format!("after {} adds", len));
         }
         r.clear();
-        c.points.push(("after clear".into(), live() - base));
+        rec(&mut c, &mut noise, base, "after clear".into());
         c.flat.push(("after 10000 adds".into(), format!("after {} adds", last)));
         cases.push(c);
     }
@@ -340,18 +364,20 @@ fn fam_7(thorough: bool) -> Vec<Case> {
     // ---- CMSHeap ---------------------------------------------------------------------------
     for &k in &[1usize, 10, 100] {
         let base = live();
+            let mut noise = 0i64;
         let mut h = CMSHeap::<u64>::new(k, CountMinSketch::with_params(64, 3));
         let mut c = Case { name: format!("CMSHeap k={} sketch 64x3", k), documented: (k * 128 + 64 * 3 * 8) as f64, points: vec![], flat: vec![] };
+            noise += c.name.capacity() as i64;
         let mut n = 0usize;
         for &len in &ls {
             while n < len {
                 h.add(mix(n as u64) % 5000);
                 n += 1;
             }
-            c.points.push((format!("after {} adds", len), live() - base));
+            rec(&mut c, &mut noise, base, format!("after {} adds", len));
         }
         h.clear();
-        c.points.push(("after clear".into(), live() - base));
+        rec(&mut c, &mut noise, base, "after clear".into());
         c.flat.push(("after 10000 adds".into(), format!("after {} adds", last)));
         cases.push(c);
     }
@@ -366,8 +392,10 @@ fn fam_8(thorough: bool) -> Vec<Case> {
     // ---- LossyCounter: O(width * log) entries -----------------------------------------------
     for &w in &[10usize, 100] {
         let base = live();
+            let mut noise = 0i64;
         let mut l = LossyCounter::<u64>::with_width(w);
         let mut c = Case { name: format!("LossyCounter width={}", w), documented: 0.0, points: vec![], flat: vec![] };
+            noise += c.name.capacity() as i64;
         let mut n = 0usize;
         for &len in &ls {
             while n < len {
@@ -376,11 +404,15 @@ fn fam_8(thorough: bool) -> Vec<Case> {
             }
             // documented O((1/eps) log(eps n)) entries of ~48 bytes (key, two counters, table overhead at <= 2x capacity)
             let entries = w as f64 * ((len as f64 / w as f64).max(1.0).ln() + 2.0);
-            let bytes = live() - base;
+            let bytes = live() - base - noise;
             if bytes as f64 > 3.0 * 48.0 * entries + 1024.0 {
+                let before = live();
                 c.points.push((format!("after {} adds EXCEEDS log bound {:.0}", len, 3.0 * 48.0 * entries + 1024.0), bytes));
+                noise += live() - before;
             } else {
+                let before = live();
                 c.points.push((format!("after {} adds", len), 0.min(bytes)));
+                noise += live() - before;
             }
         }
         l.clear();
